@@ -123,7 +123,7 @@ def run(chk):
     sel = [e for e in ents if e.kind == "form"]
     if chk.tier == "quick":
         sel = [e for e in sel if e.name in ("derivative_drop", "subdomains", "laplace_coef_tri_p2", "int_facet_tri", "multi_rule",
-                                            "tensor_constant", "rhs_tri_p2", "ext_facet_tri", "quadrature_element", "real_element")]
+                                            "tensor_constant", "tensor_constant_nonsquare", "rhs_tri_p2", "ext_facet_tri", "quadrature_element", "real_element")]
     poison_search(chk, sel)
     if chk.tier == "thorough":
         chk.leanchecker([L.LAYOUT_MODULE, "FfcxProofs.C05"])
